@@ -392,6 +392,30 @@ pub fn worker(w: &mut Worker) {
         r.case("replace", vec!["x".into(), "x".into(), fw.to_string()], false, vec![s(fw)], true);
     }
 
+    // calc gives a number or the error result: an expression whose value is not a number (a comparison,
+    // a boolean, a tuple, an assignment, nothing at all, a text) is out of its domain
+    for e in [
+        "1 < 2", "2 == 2", "1 != 2", "2 >= 1", "true", "false", "true && false", "1 < 2 || 2 < 1", "!true", "2 , 5", "(2, 5)", "1, 2, 3", "x = 4", "x = 4; x", "1 + 2 ;", ";", "", " ", "()", "\"text\"", "\"1\"",
+        "\"1\" + \"2\"", "1 +", "+", "* 2", "1 2", "abc", "1 + abc", "1 / 0", "1 % 0", "min(1)", "len(\"abc\")", "str::to_uppercase(\"a\")", "if(true, 1, 2)", "typeof(1)", "1 = 1",
+    ] {
+        for split in [false, true] {
+            let args: Vec<String> = if split { e.split(' ').filter(|x| !x.is_empty()).map(String::from).collect() } else { vec![e.to_string()] };
+            if !r.w.take() {
+                continue;
+            }
+            let cj = json!({"command": "calc", "args": args, "list": false});
+            r.w.begin(|| cj.clone());
+            let got = r.rig.call("calc", &args, false);
+            r.w.add_transitions(1);
+            let numeric_text = |t: &str| t.parse::<f64>().is_ok();
+            match &got {
+                Obs::Err => r.w.pass(true, hash64(&("calc-domain", "err"))),
+                Obs::Val(Some(t)) if numeric_text(t) => r.w.pass(true, hash64(&("calc-domain", "number"))),
+                other => r.w.fail("calc:not-a-number", &format!("calc {:?}: observed {:?}: neither a number nor the error result", args, other), cj),
+            }
+        }
+    }
+
     // numeric comparison
     let nums = ["-2", "-1", "0", "1", "1.5", "2", "10", "-1.5", "0.5", "100", "abc", "", "1e3", " 1", "0x10", "1,5", "-0", "-0.0", "0.0", "00", "1.0"];
     for a in nums {
@@ -528,7 +552,7 @@ pub fn crash_sig(_case: &Value, kind: &str) -> String {
     kind.to_string()
 }
 
-pub const RULE: &str = "every text up to the length bound over {a b SP e-acute emoji} x every needle up to length 2 through length/strlen/is_empty/trim*/uppercase/lowercase/indexof/last_indexof/contains/starts_with/ends_with/equals/eq/concat/replace/split; substring with every index and index pair from -(len+2) to len+2 plus non-numeric junk; less_than/greater_than over a 21x21 number pool (incl. -0, -0.0, 0.0, 00, 1.0); calc over n op m, the same as one argument, and ( n op m ) op2 k with exactly representable results; range over the grid and non-numeric arguments. Oracle: Rust's own string operations in byte units, documented substring semantics (error result for out-of-range, non-boundary or non-numeric indexes; an index equal to the text length is left open), numeric order, exact arithmetic. Non-trivial: multi-byte text, negative/out-of-range/non-numeric index, non-integer number. states = distinct (command, result class, arity); transitions = real command invocations; 14 further texts whose case mapping or trimming is not character by character (final sigma, sharp s, dotted capital I, ligature, digraphs, combining mark, no-break / ideographic / em space, TAB and LF). Scale cases: texts of 300/70000 (thorough 1000000) bytes built from a one- and a multi-byte block around a marker: length, indexof, last_indexof, contains, starts/ends_with, substring forms, replace, split, uppercase, trim; calc / less_than / greater_than / equals at the edge of the exactly representable integers (2^53). Results that a condition would read as false (0, false, no, their capitals) or as syntax (and, or, not, parentheses) arrived at through concat at every split point, trim*, case mapping, substring and replace";
+pub const RULE: &str = "every text up to the length bound over {a b SP e-acute emoji} x every needle up to length 2 through length/strlen/is_empty/trim*/uppercase/lowercase/indexof/last_indexof/contains/starts_with/ends_with/equals/eq/concat/replace/split; substring with every index and index pair from -(len+2) to len+2 plus non-numeric junk; less_than/greater_than over a 21x21 number pool (incl. -0, -0.0, 0.0, 00, 1.0); calc over n op m, the same as one argument, and ( n op m ) op2 k with exactly representable results; range over the grid and non-numeric arguments. Oracle: Rust's own string operations in byte units, documented substring semantics (error result for out-of-range, non-boundary or non-numeric indexes; an index equal to the text length is left open), numeric order, exact arithmetic. Non-trivial: multi-byte text, negative/out-of-range/non-numeric index, non-integer number. states = distinct (command, result class, arity); transitions = real command invocations; 14 further texts whose case mapping or trimming is not character by character (final sigma, sharp s, dotted capital I, ligature, digraphs, combining mark, no-break / ideographic / em space, TAB and LF). Scale cases: texts of 300/70000 (thorough 1000000) bytes built from a one- and a multi-byte block around a marker: length, indexof, last_indexof, contains, starts/ends_with, substring forms, replace, split, uppercase, trim; calc / less_than / greater_than / equals at the edge of the exactly representable integers (2^53). Results that a condition would read as false (0, false, no, their capitals) or as syntax (and, or, not, parentheses) arrived at through concat at every split point, trim*, case mapping, substring and replace. calc domain: 36 expressions that are no arithmetic (comparisons, booleans, tuples, assignments, empty, texts, dangling operators, unknown names, division by zero, function calls), each as one argument and split at blanks: the result is a number or the error result";
 pub const ASSUMPTIONS: &[&str] = &["arguments are handed to the commands as already-bound values (run_instruction), so the parser is not in the loop", "division is only generated where the quotient is exact; number spellings such as 1e3 or ' 1' may be rejected or accepted but never mis-ordered"];
 pub const EXHAUSTIVE: bool = true;
 pub const WALL_CAP_S: (u64, u64) = (50, 1500);
